@@ -634,4 +634,11 @@ def check(ctx, rep):
     from .c15 import rule_one_result
 
     rule_one_result(ctx, rep)
+    from .c09 import rule_memo_coherent
+
+    # the registry is filled collection by collection: a memoised listing of it hides what is registered later from every selection
+    rule_memo_coherent(ctx, rep)
+    from .c20 import rule_parser_plain
+
+    rule_parser_plain(ctx, rep)
     rep.not_covered += ["regex/fnmatch semantics over arbitrary pattern lists and registries", "sast_only eligibility beyond its presence in both branches"]
